@@ -280,6 +280,7 @@ def tokToString : Tok F → String
   | .item (.money v c) => Num.short v ++ " " ++ c
   | .var n => n
   | .month m => toString m
+  | .tz n o => n ++ " " ++ toString o
   | .field _ => "field"
   | _ => "<value>"
 
